@@ -196,4 +196,33 @@ theorem daoChain_ok {p d : DaoField} {bs : List BlockTotals} (h : daoChain p bs 
     generalize p.ar * b.g2 / p.c = inc at *
     refine ⟨by omega, by omega, by omega, by omega⟩
 
+/-- the miners' secondary rewards along a chain segment: block `i` adds `⌊g2_i·U_{i-1}/C_{i-1}⌋`
+(`secondary_block_reward` of that block, paid when it is finalised), computed from the running
+parent field -/
+def minerSum (p : DaoField) : List BlockTotals → Nat
+  | [] => 0
+  | b :: bs =>
+    b.g2 * p.u / p.c +
+      (match daoUpdate p b.primary b.g2 b.added b.freed b.interests with
+       | .ok d => minerSum d bs
+       | .error _ => 0)
+
+/-- exact split of the issuance along a chain segment -/
+theorem daoChain_split {p d : DaoField} {bs : List BlockTotals} (h : daoChain p bs = .ok d) :
+    d.s + sumOf (·.interests) bs + minerSum p bs = p.s + sumOf (·.g2) bs ∧
+    minerSum p bs ≤ sumOf (·.g2) bs := by
+  induction bs generalizing p with
+  | nil =>
+    simp only [daoChain, pure_ok] at h
+    subst h; simp [sumOf, minerSum]
+  | cons b bs ih =>
+    simp only [daoChain, bind_ok] at h
+    obtain ⟨d1, h1, h2⟩ := h
+    obtain ⟨i1, i2⟩ := ih h2
+    obtain ⟨h0, _, hm, _, _, _, _, hi, _, _, _, hd⟩ := daoUpdate_ok.1 h1
+    have hs : d1.s = p.s + (b.g2 - b.g2 * p.u / p.c) - b.interests := by rw [hd]
+    simp only [sumOf, minerSum, h1]
+    generalize b.g2 * p.u / p.c = m at *
+    constructor <;> omega
+
 end CkbVerif.Dao
